@@ -31,6 +31,13 @@ def py_value(kind, x):
     return x
 
 
+def build_twin(defn, base_drv, real_router):
+    """a driver built from the same declarations as base_drv: a subclass that only changes the name"""
+    _n[0] += 1
+    cls = type("Twin%d" % _n[0], (type(base_drv),), {"name": defn["name"]})
+    return cls(router=real_router)
+
+
 def build_class(defn, log, real_router=None):
     """returns an instance of the most derived class"""
     from indi.device import Driver
